@@ -189,6 +189,16 @@ def apply(spec, state, op):
         for k, v in op[1]:
             m.setitem(k, v)
         out = ('ok', None)
+    elif name == 'update_rmw':
+        # update() from a generator that reads the cache while update() consumes it:
+        # c.update((k, '%s>%s' % (c.get(k, 'none'), tag)) for k in keys) -- one atomic read-modify-write
+        out = ('ok', None)
+        for k in op[1]:
+            cur = m.get(k, 'none')
+            if cur[0] != 'ok':
+                out = cur           # an on_miss that raises: the pairs produced so far are stored, the call raises
+                break
+            m.setitem(k, '%s>%s' % (cur[1], op[2]))
     elif name == 'update_bad':
         # update() from a sequence whose last element is not a pair: the good pairs are assigned, then it raises
         for k, v in op[1]:
@@ -196,6 +206,8 @@ def apply(spec, state, op):
         out = ('exc', 'ValueError')
     elif name == 'in':
         out = ('ok', m.index(op[1]) >= 0)
+    elif name == 'repr':
+        out = ('ok', 'str')          # repr(cache) is a read of the whole cache: it returns a string, it never raises
     elif name == 'len':
         out = ('ok', len(m.items))
     elif name == 'dict':
@@ -219,10 +231,10 @@ def apply(spec, state, op):
 
 
 #: operations that take no lock in LRI/LRU (inherited from dict, executed as one C call)
-LOCK_FREE_READS = frozenset(['in', 'len', 'dict', 'keys'])
+LOCK_FREE_READS = frozenset(['in', 'len', 'dict', 'keys', 'repr'])
 
 #: exception types an operation can raise in *some* sequential state
 POSSIBLE_EXC = {
     'get': {'KeyError', 'LookupError'}, 'del': {'KeyError'}, 'pop': {'KeyError'}, 'popitem': {'KeyError'},
-    'getd': {'LookupError'}, 'setdefault': {'LookupError'}, 'update_bad': {'ValueError'},
+    'getd': {'LookupError'}, 'setdefault': {'LookupError'}, 'update_bad': {'ValueError'}, 'update_rmw': {'LookupError'},
 }
